@@ -27,6 +27,7 @@ func (in *Interp) newMap(mt *types.Map, site string) *MapObj {
 
 func (in *Interp) mapLen(m MapV) *Term {
 	b := in.b
+	in.recordMapAccess(m.m, false, 0)
 	if m.m == nil {
 		return b.BV(0, 64)
 	}
@@ -84,6 +85,7 @@ func (in *Interp) iteValue(c *Term, x, y Value) Value {
 
 func (in *Interp) mapLookup(mv MapV, key Value, vt types.Type) (Value, *Term) {
 	b := in.b
+	in.recordMapAccess(mv.m, false, 0)
 	zero := in.zero(vt)
 	if mv.m == nil {
 		return zero, b.False
@@ -148,6 +150,7 @@ func (in *Interp) mapUpdate(mvv Value, key, val Value, pos token.Pos) {
 		in.goPanicf(pos, "nilmap", "assignment to entry in nil map")
 	}
 	m := mv.m
+	in.recordMapAccess(m, true, pos)
 	val = copyVal(val)
 	match := in.matchTerms(m, key)
 	anyPossible := false
@@ -189,6 +192,7 @@ func (in *Interp) mapDelete(mvv Value, key Value) {
 	if mv.m == nil {
 		return
 	}
+	in.recordMapAccess(mv.m, true, 0)
 	match := in.matchTerms(mv.m, key)
 	for j, t := range match {
 		if t.IsFalse() {
@@ -221,6 +225,7 @@ type mapIter struct {
 	m       *MapObj
 	rest    []*MapEntry
 	permute bool
+	rotated bool // single-range mode: one entry has been moved to the front, the rest stays canonical
 }
 
 type strIter struct {
@@ -232,6 +237,7 @@ func (in *Interp) rangeIter(v Value, t types.Type) Value {
 	switch x := v.(type) {
 	case MapV:
 		it := &mapIter{}
+		in.recordMapAccess(x.m, false, 0)
 		if x.m != nil {
 			it.m = x.m
 			it.rest = append([]*MapEntry{}, x.m.entries...)
@@ -241,7 +247,15 @@ func (in *Interp) rangeIter(v Value, t types.Type) Value {
 					live++
 				}
 			}
-			it.permute = in.opts.PermuteMaps && live >= 2 && live <= in.opts.PermuteMax
+			if in.permuteMode == 1 && !in.permuteUsed && live >= 2 && live <= in.opts.PermuteMax {
+				// single-range mode: at most one range of this execution is iterated in an arbitrary order
+				if in.choose([]*Term{in.b.True, in.b.True}) == 1 {
+					it.permute = true
+					in.permuteUsed = true
+				}
+			} else if in.permuteMode == 2 {
+				it.permute = in.opts.PermuteMaps && live >= 2 && live <= in.opts.PermuteMax
+			}
 		}
 		return OpaqueV{Tag: "mapiter", Data: it}
 	case *Str:
@@ -258,7 +272,8 @@ func (in *Interp) rangeNext(fr *frame, itv Value, x *ssa.Next) Value {
 	case *mapIter:
 		for len(it.rest) > 0 {
 			k := 0
-			if it.permute && len(it.rest) > 1 {
+			if it.permute && len(it.rest) > 1 && (in.permuteMode != 1 || !it.rotated) {
+				it.rotated = true
 				conds := make([]*Term, len(it.rest))
 				for i, e := range it.rest {
 					if e.present.IsFalse() {
